@@ -272,7 +272,6 @@ func (c *capacityLRU) adjustSize(key interface{}, sizeInBytes int64) {
 	v.size = sizeInBytes
 	element.Value = v
 	c.currentCapacityInBytes += sizeInBytes
-	c.evictIfNeeded()
 }
 
 func (c *capacityLRU) shouldEvict() bool {
